@@ -114,7 +114,7 @@ impl Client {
                 Ready::Ok(msg.disconnect(codec::Disconnect::default()))
             }),
             self.max_receive,
-            16,
+            self.shared.topic_alias_max(),
             self.cfg,
         );
         let control = ControlService::new(
@@ -141,7 +141,7 @@ impl Client {
             fn_service(|pkt| Ready::Ok(Either::Left(pkt))),
             service.into_service(),
             self.max_receive,
-            16,
+            self.shared.topic_alias_max(),
             self.cfg,
         );
         let control = ControlService::new(
@@ -173,7 +173,7 @@ impl Client {
             fn_service(|pkt| Ready::Ok(Either::Left(pkt))),
             service.into_service(),
             self.max_receive,
-            16,
+            self.shared.topic_alias_max(),
             self.cfg,
         );
         let control = ControlService::new(control, self.shared.clone());
@@ -242,7 +242,7 @@ where
                 Ready::Ok(msg.disconnect(codec::Disconnect::default()))
             }),
             self.max_receive,
-            16,
+            self.shared.topic_alias_max(),
             self.cfg,
         );
         let control = ControlService::new(
@@ -268,7 +268,7 @@ where
             dispatch(self.builder.finish(), self.handlers),
             service.into_service(),
             self.max_receive,
-            16,
+            self.shared.topic_alias_max(),
             self.cfg,
         );
         let control = ControlService::new(
